@@ -147,6 +147,36 @@ pub fn wmbi_words(evs: &[Ev]) -> Vec<Vec<String>> {
     }
     out
 }
+/// the allocator events of the Zopfli front end of one encode_data round (between markers 0 and 1): quality 10 =
+/// `BrotliCreateZopfliBackwardReferences` (from the first `A:ZopfliNode` to the last `F:ZopfliNode`), quality 11 =
+/// `BrotliCreateHqZopfliBackwardReferences` (it starts with `num_matches: u32`, `matches: u64` and ends with their
+/// release: from the event before the first `A:u64` to the event after the last `F:u64`)
+pub fn zopfli_words(evs: &[Ev], q: i32) -> Vec<(&'static str, Vec<String>)> {
+    let mut out = vec![];
+    let mut cur: Option<Vec<&Ev>> = None;
+    for e in evs {
+        if e.kind == 'B' {
+            if e.bid == 0 { cur = Some(vec![]); } else if let Some(seg) = cur.take() {
+                if e.bid != 1 { continue; }
+                let tok = |e: &Ev| format!("{}:{}", e.kind, sktag(e.ty));
+                if q == 10 {
+                    let a = seg.iter().position(|e| e.kind == 'A' && sktag(e.ty) == "ZopfliNode");
+                    let b = seg.iter().rposition(|e| e.kind == 'F' && sktag(e.ty) == "ZopfliNode");
+                    if let (Some(a), Some(b)) = (a, b) { if a < b { out.push(("BrotliCreateZopfliBackwardReferences", seg[a..=b].iter().map(|e| tok(e)).collect())); } }
+                } else if q == 11 {
+                    let a = seg.iter().position(|e| e.kind == 'A' && e.ty == "u64");
+                    let b = seg.iter().rposition(|e| e.kind == 'F' && e.ty == "u64");
+                    if let (Some(a), Some(b)) = (a, b) {
+                        if a >= 1 && b + 1 < seg.len() && a < b && seg[a - 1].kind == 'A' && seg[a - 1].ty == "u32" && seg[b + 1].kind == 'F' && seg[b + 1].ty == "u32" {
+                            out.push(("BrotliCreateHqZopfliBackwardReferences", seg[a - 1..=b + 1].iter().map(|e| tok(e)).collect()));
+                        }
+                    }
+                }
+            }
+        } else if let Some(seg) = cur.as_mut() { seg.push(e); }
+    }
+    out
+}
 pub struct CBlock<T> {
     data: Box<[T]>,
     origin: Option<Ledger>,
@@ -517,9 +547,9 @@ pub trait Inst {
 fn op_of(op: u32) -> BrotliEncoderOperation {
     match op { 0 => BrotliEncoderOperation::BROTLI_OPERATION_PROCESS, 1 => BrotliEncoderOperation::BROTLI_OPERATION_FLUSH, 2 => BrotliEncoderOperation::BROTLI_OPERATION_FINISH, _ => BrotliEncoderOperation::BROTLI_OPERATION_EMIT_METADATA }
 }
-pub struct RustInst { pub s: BrotliEncoderStateStruct<CAlloc>, pub led: Ledger, pub ext: UnionHasher<CAlloc>, ev0: usize, pub ir_calls: u64, pub cq: Vec<(String, String)>, pub cq_unpaired: u64, pub sk: Vec<(String, String)>, pub sk_seen: u64, pub log_mb: bool }
+pub struct RustInst { pub s: BrotliEncoderStateStruct<CAlloc>, pub led: Ledger, pub ext: UnionHasher<CAlloc>, ev0: usize, pub ir_calls: u64, pub cq: Vec<(String, String)>, pub cq_unpaired: u64, pub sk: Vec<(String, String)>, pub sk_seen: u64, pub log_mb: bool, pub zk: u32, pub zk_seen: u64 }
 impl RustInst {
-    pub fn new() -> RustInst { let (a, led) = CAlloc::new(); RustInst { s: BrotliEncoderStateStruct::new(a), led, ext: UnionHasher::Uninit, ev0: 0, ir_calls: 0, cq: vec![], cq_unpaired: 0, sk: vec![], sk_seen: 0, log_mb: false } }
+    pub fn new() -> RustInst { let (a, led) = CAlloc::new(); RustInst { s: BrotliEncoderStateStruct::new(a), led, ext: UnionHasher::Uninit, ev0: 0, ir_calls: 0, cq: vec![], cq_unpaired: 0, sk: vec![], sk_seen: 0, log_mb: false, zk: 0, zk_seen: 0 } }
     /// a pre-computed hasher made by the caller with the instance's own allocator (what CompressMulti does)
     pub fn make_ext_hasher(&mut self) {
         let mut p = self.s.params.clone();
@@ -551,6 +581,15 @@ impl Inst for RustInst {
                 self.sk_seen += 1;
                 if w.len() <= 600 && (self.sk.len() < 4 || (self.sk.len() < 8 && self.sk_seen % 7 == 0)) {
                     self.sk.push((format!("ledger sk WriteMetaBlockInternal q{} log{} {}", q, self.log_mb as u32, w.join(" ")).trim_end().to_string(), "ok".to_string()));
+                }
+            }
+        }
+        {
+            let q = self.s.params.quality;
+            if q >= 10 {
+                for (root, w) in zopfli_words(&self.led.events_from(e0), q) {
+                    self.zk_seen += 1;
+                    if w.len() <= 600 && self.zk < 3 { self.zk += 1; self.sk.push((format!("ledger sk {} q{} log{} {}", root, q, self.log_mb as u32, w.join(" ")), "ok".to_string())); }
                 }
             }
         }
@@ -822,6 +861,7 @@ fn rust_instance_case(seed: u64, thorough: bool) -> (Vec<(String, String)>, Repo
         let skn = inst.sk_seen;
         cq.extend(std::mem::take(&mut inst.sk));
         if skn > 0 { rep.add("inst.rust.sk_wmbi_activations", skn); }
+        if inst.zk_seen > 0 { rep.add("inst.rust.sk_zopfli_activations", inst.zk_seen); }
         let cqu = inst.cq_unpaired;
         brotli::enc::encode::verif_stream_hook::set_book(false);
         drop(brotli::enc::encode::verif_stream_hook::take_book());
